@@ -100,6 +100,8 @@ def draw_sig(draw, depth, sigdims=True):
         if depth > 0 and draw(INT(0, 2)) == 0:
             dims = draw_dims(draw) if sigdims and draw(INT(0, 3)) == 0 else []
             members.append({"name": name, "flow": flow, "dims": dims, "sig": draw_sig(draw, depth - 1, sigdims)})
+            if draw(INT(0, 3)) == 0:
+                members[-1]["pre"] = True      # the member's description is an already flipped signature
         else:
             sh = draw_shape(draw)
             members.append({"name": name, "flow": flow, "dims": draw_dims(draw),
@@ -108,6 +110,11 @@ def draw_sig(draw, depth, sigdims=True):
 
 
 # ------------------------------------------------------------------------------------------ model
+def mflip(m):
+    """Does entering this signature member reverse the effective direction of what is inside?"""
+    return (m["flow"] == "in") ^ bool(m.get("pre"))
+
+
 def model_leaves(sig, flip=False, prefix=()):
     """[(path, dir, port descriptor)] with array dimensions expanded, in declaration order."""
     out = []
@@ -117,7 +124,7 @@ def model_leaves(sig, flip=False, prefix=()):
             if "port" in m:
                 out.append((path, "in" if (m["flow"] == "in") ^ flip else "out", m["port"]))
             else:
-                out += model_leaves(m["sig"], flip ^ (m["flow"] == "in"), path)
+                out += model_leaves(m["sig"], flip ^ mflip(m), path)
     return out
 
 
@@ -126,7 +133,11 @@ def sig_depth(sig):
 
 
 def has_in_nested(sig):
-    return any("sig" in m and (m["flow"] == "in" or has_in_nested(m["sig"])) for m in sig["m"])
+    return any("sig" in m and (mflip(m) or has_in_nested(m["sig"])) for m in sig["m"])
+
+
+def has_preflip(sig):
+    return any("sig" in m and (m.get("pre") or has_preflip(m["sig"])) for m in sig["m"])
 
 
 def has_dims(sig):
@@ -182,7 +193,7 @@ class Builder:
             sh = m["port"]["shape"]
             mem = F(self.shape(sh), init=self.init(sh, m["port"]["init"]))
         else:
-            mem = F(self.sig(m["sig"]))
+            mem = F(self.sig(m["sig"]).flip() if m.get("pre") else self.sig(m["sig"]))
         if m["dims"]:
             mem = mem.array(*m["dims"])
         return mem
@@ -240,7 +251,7 @@ def model_json(sig, flip=False, prefix=()):
                         "dir": "in" if (m["flow"] == "in") ^ flip else "out",
                         "width": shape_width(p["shape"]), "signed": shape_signed(p["shape"]),
                         "init": str(init_value(p))}
-            return {"type": "interface", "members": model_json(m["sig"], flip ^ (m["flow"] == "in"), path),
+            return {"type": "interface", "members": model_json(m["sig"], flip ^ mflip(m), path),
                     "annotations": {}}
         def dims(ds, path):
             if not ds:
@@ -309,6 +320,7 @@ def algebra_body(ctx, case):
             raise Mismatch("metadata-of-flipped", expected=fexp, actual=fjs)
     keys = ["alg:depth%d" % sig_depth(sd)]
     if has_in_nested(sd): keys.append("alg:in-nested")
+    if has_preflip(sd): keys.append("alg:member-is-flipped-signature")
     if has_dims(sd): keys.append("alg:dims")
     if has_sig_dims(sd): keys.append("alg:sig-dims")
     if any(p["shape"][0] in ("enum", "struct") for _, _, p in leaves): keys.append("alg:aggregate-shape")
@@ -340,7 +352,7 @@ def with_flows(sig, want_out, flipbits, prefix=(), parity=False):
         else:
             fin = flipbits.get(path, False)
             res.append(dict(m, flow="in" if fin else "out",
-                            sig=with_flows(m["sig"], want_out, flipbits, path, parity ^ fin)))
+                            sig=with_flows(m["sig"], want_out, flipbits, path, parity ^ fin ^ bool(m.get("pre")))))
     return {"m": res}
 
 
@@ -385,7 +397,7 @@ def connect_cases(draw, depth, corrupt=False):
     case = {"sig": sd, "style": style, "k": k, "owners": owners, "flipbits": flipbits, "consts": consts,
             "signflip": signflip, "seeds": seeds, "perm": list(perm)}
     if corrupt:
-        case["corruption"] = [draw(INT(0, 5)), draw(INT(0, 10 ** 6)), draw(INT(0, 10 ** 6))]
+        case["corruption"] = [draw(INT(0, len(CORRUPTIONS) - 1)), draw(INT(0, 10 ** 6)), draw(INT(0, 10 ** 6))]
     return case
 
 
@@ -401,7 +413,7 @@ def object_sigs(case):
                 if "port" in m:
                     eff[path] = ((m["flow"] == "in") ^ flip)
                 else:
-                    walk(m["sig"], flip ^ (m["flow"] == "in"), path)
+                    walk(m["sig"], flip ^ mflip(m), path)
         walk(sd, False, ())
         owners = {p: (1 if eff[p] else 0) for p, _ in lm}     # object 0 = sig, object 1 = flipped
         return None, owners
@@ -576,6 +588,7 @@ def connect_body(ctx, case):
     sd = case["sig"]
     keys = ["conn:style%d" % case["style"], "conn:k%d" % case["k"]]
     if has_in_nested(sd): keys.append("conn:in-nested")
+    if has_preflip(sd): keys.append("conn:member-is-flipped-signature")
     if has_dims(sd): keys.append("conn:dims")
     if has_sig_dims(sd) and leaves: keys.append("conn:sig-dims")
     if const_out: keys.append("conn:constant")
@@ -587,7 +600,8 @@ def connect_body(ctx, case):
 
 
 # ------------------------------------------------------------------------------------------ corruptions
-CORRUPTIONS = ["remove-member", "change-width", "change-init", "second-output", "const-mismatch", "const-in-vs-signal-out"]
+CORRUPTIONS = ["remove-member", "change-width", "change-init", "second-output", "const-mismatch", "const-in-vs-signal-out",
+               "object-wrong-width", "object-wrong-init"]
 
 
 def corrupt_body(ctx, case):
@@ -672,11 +686,36 @@ def corrupt_body(ctx, case):
                 set_leaf(objs[vic], fp, Const((v + 1) % (1 << w), sh))
             else:
                 set_leaf(objs[vic], fp, Const(v, sh))
+        extra = []
+        if kind in ("object-wrong-width", "object-wrong-init"):
+            # the object itself (not its signature) is corrupted at one leaf, preferably at an array index >= 1
+            cands = [(mp, fp, port) for mp, fp, port in leaves if port["shape"][0] in ("u", "s")
+                     and (kind == "object-wrong-width" or port["shape"][1] >= 1)]
+            hi = [c for c in cands if any(isinstance(x, int) and x >= 1 for x in c[1])]
+            if hi and r1 % 4:
+                cands = hi
+                extra.append("corrupt:at-index>=1")
+            if not cands:
+                ctx.tally("corrupt:skipped-no-candidate"); return
+            mp, fp, port = cands[r2 % len(cands)]
+            vic = r1 % k
+            old = Value.cast(traverse(objs[vic], fp))
+            if isinstance(old, Const):
+                ctx.tally("corrupt:skipped-no-candidate"); return
+            sh = old.shape()
+            if kind == "object-wrong-width":
+                new = Signal(Shape(sh.width + 1, sh.signed), init=old.init)
+            else:
+                new = Signal(sh, init=old.init + 1 if Shape.cast(sh).width and old.init + 1 < (1 << (sh.width - sh.signed)) else old.init - 1)
+            set_leaf(objs[vic], fp, new)
+            for j in range(k):
+                if objs[j].signature.is_compliant(objs[j]) != (j != vic):
+                    raise Mismatch("is_compliant-wrong-on-corrupted-object", corruption=kind, obj=j, victim=vic, path=list(fp))
         m = Module()
         try:
             connect(m, *objs)
         except wiring.ConnectionError:
-            ctx.note(case, True, "corrupt:" + kind, evals=1)
+            ctx.note(case, True, "corrupt:" + kind, *extra, evals=1)
             return
         raise Mismatch("corrupted-tuple-accepted", corruption=kind)
 
@@ -693,4 +732,5 @@ def parts(tier):
 
 REQUIRED = ["alg:depth2", "alg:in-nested", "alg:dims", "alg:aggregate-shape", "alg:zero-dim",
             "conn:style0", "conn:style1", "conn:style2", "conn:k3", "conn:in-nested", "conn:dims", "conn:constant",
-            "conn:signedness-differs", "conn:unowned-leaf", "conn:permuted"] + ["corrupt:" + c for c in CORRUPTIONS]
+            "conn:signedness-differs", "conn:unowned-leaf", "conn:permuted", "alg:member-is-flipped-signature",
+            "conn:member-is-flipped-signature", "corrupt:at-index>=1"] + ["corrupt:" + c for c in CORRUPTIONS]
